@@ -27,6 +27,15 @@ struct In2g { m: felt252, n: felt252 }
 #[derive(Copy, Drop)]
 struct Out2g { a: In2g, k: felt252 }
 #[inline(never)]
+fn gacc(ref a: felt252, b: felt252) {
+    a = a * 2 + b;
+}
+fn gacc_inl(ref a: felt252, b: felt252) -> felt252 {
+    let old = a;
+    a = a + b;
+    old
+}
+#[inline(never)]
 fn gpick(b: Box<felt252>, c: bool, alt: felt252) -> Box<felt252> {
     let v = if c { b.unbox() } else { alt };
     BoxTrait::new(v)
@@ -137,6 +146,8 @@ class Gen:
             return self.literal(ty, env, depth)
         if ty in INTS or ty == "felt252":
             c = r.random()
+            if ty == "felt252" and r.random() < 0.3:
+                return self.gen_felt_special(env, depth)
             others = [(n, t) for n, t in env if t in INTS and t != ty]
             if not vs and others and c < 0.5:
                 n, t = r.choice(others)
@@ -154,14 +165,6 @@ class Gen:
                 # conversion from another integer type
                 src = r.choice([t for t in INTS if t != ty]) if ty != "felt252" else r.choice(INTS)
                 return ("cast", self.gen(src, env, depth + 1), src, ty, ty)
-            if ty == "felt252" and c > 0.72 and c < 0.80:
-                if r.random() < 0.5:
-                    return ("boxmerge", self.gen("felt252", env, depth + 1),
-                            self.gen("bool", env, depth + 1), self.gen("felt252", env, depth + 1),
-                            ty)
-                sub = [self.gen("felt252", env, depth + 2) for _ in range(7)]
-                return ("mutnest", sub, self.gen("bool", env, depth + 1), r.choice([True, False]),
-                        r.choice(["m", "n", "k", "sum"]), r.choice(["n", "m"]), ty)
             if c < 0.84:
                 return self.gen_let(ty, env, depth)
             if c < 0.87:
@@ -245,6 +248,35 @@ class Gen:
             return ("if", self.gen("bool", env, depth + 1), self.gen("E", env, depth + 1),
                     self.gen("E", env, depth + 1), "E")
         raise AssertionError(ty)
+
+    def gen_felt_special(self, env, depth):
+        """Statement-level patterns (ref parameters, arrays, snapshots, boxes, nested struct
+        mutation) producing a felt252."""
+        r = self.r
+        ty = "felt252"
+        k = r.random()
+        if k < 0.18:
+            return ("refacc", self.gen("felt252", env, depth + 1),
+                    [self.gen("felt252", env, depth + 1) for _ in range(r.randint(1, 3))],
+                    r.choice([True, False]), ty)
+        if k < 0.4:
+            n = r.randint(1, 3)
+            idx = ("var", r.choice(self.vars_of(env, "u32")), "u32") \
+                if self.vars_of(env, "u32") and r.random() < 0.6 else \
+                ("lit", "u32", r.randint(0, n), "u32")
+            return ("arrat", [self.gen("felt252", env, depth + 1) for _ in range(n)], idx, ty)
+        if k < 0.52:
+            return ("snap", self.gen("felt252", env, depth + 1),
+                    self.gen("felt252", env, depth + 1), ty)
+        if k < 0.6:
+            return ("early", self.gen("bool", env, depth + 1), self.gen("felt252", env, depth + 1),
+                    self.gen("felt252", env, depth + 1), ty)
+        if k < 0.8:
+            return ("boxmerge", self.gen("felt252", env, depth + 1),
+                    self.gen("bool", env, depth + 1), self.gen("felt252", env, depth + 1), ty)
+        sub = [self.gen("felt252", env, depth + 2) for _ in range(7)]
+        return ("mutnest", sub, self.gen("bool", env, depth + 1), r.choice([True, False]),
+                r.choice(["m", "n", "k", "sum"]), r.choice(["n", "m"]), ty)
 
     def gen_let(self, ty, env, depth):
         t = self.pick_ty()
@@ -359,6 +391,24 @@ class Gen:
             return f"{{ let {e[1]}: {self.ty_src(e[2])} = {self.src(e[3])}; {self.src(e[4])} }}"
         if k == "boxmerge":
             return f"gpick(BoxTrait::new({self.src(e[1])}), {self.src(e[2])}, {self.src(e[3])}).unbox()"
+        if k == "refacc":
+            v = self.fresh()
+            fn = "gacc" if e[3] else "gacc_inl"
+            calls = " ".join(f"{fn}(ref {v}, {self.src(a)});" for a in e[2])
+            return f"{{ let mut {v}: felt252 = {self.src(e[1])}; {calls} {v} }}"
+        if k == "arrat":
+            v = self.fresh()
+            elems = ", ".join(self.src(a) for a in e[1])
+            return f"{{ let {v}: Array<felt252> = array![{elems}]; *{v}.at({self.src(e[2])}) }}"
+        if k == "snap":
+            v, w = self.fresh(), self.fresh()
+            return (f"{{ let {v}: felt252 = {self.src(e[1])}; let {w} = @{v}; "
+                    f"(*{w}) * 3 + {self.src(e[2])} + {v} }}")
+        if k == "early":
+            # a closure-free early exit: an inner block cannot `return` from the generated
+            # expression position, so the early exit is expressed with a helper-free if/else chain
+            # whose first arm is taken before the rest is evaluated
+            return f"(if {self.src(e[1])} {{ {self.src(e[2])} }} else {{ {self.src(e[3])} }})"
         if k == "mutnest":
             sub, cond, in_then, proj, upd = e[1], e[2], e[3], e[4], e[5]
             v = self.fresh()
@@ -589,6 +639,28 @@ class Ref:
             c = self.ev(e[2], env)
             alt = self.ev(e[3], env)
             return vite(_z(sel(c)) == 1, x, alt)
+        if k == "refacc":
+            t = _z(self.ev(e[1], env)[1])
+            for a in e[2]:
+                b = _z(self.ev(a, env)[1])
+                t = (t * 2 + b) % P if e[3] else (t + b) % P
+            return ("int", t)
+        if k == "arrat":
+            vals = [self.ev(a, env) for a in e[1]]
+            i = _z(self.ev(e[2], env)[1])
+            self.panic_if(i >= len(vals), [short("Index out of bounds")])
+            res = vals[-1]
+            for j in range(len(vals) - 2, -1, -1):
+                res = vite(i == j, vals[j], res)
+            return res
+        if k == "snap":
+            a = _z(self.ev(e[1], env)[1])
+            b = _z(self.ev(e[2], env)[1])
+            return ("int", (a * 3 + b + a) % P)
+        if k == "early":
+            c = self.ev(e[1], env)
+            return self.branch(_z(sel(c)) == 1, lambda: self.ev(e[2], env),
+                               lambda: self.ev(e[3], env))
         if k == "mutnest":
             sub, cond, in_then, proj, upd = e[1], e[2], e[3], e[4], e[5]
             m, n, kk = (self.ev(sub[i], env) for i in range(3))
